@@ -1264,6 +1264,36 @@ def _sparse_rule(ctx, ret, rnode):
     return None
 
 
+def _symmetry_world(ctx, fn):
+    """(0) `_is_symmetric` by value on a finite world of 4x4 sparse patterns (c04_sym): for the (matrix, rows, cols, values) tuple of each pattern
+    the answer is `A == A.T`.  Entry order: both orders `scipy.sparse.find` has produced (column-major, row-major); a wrong answer is a violation
+    only when it is given for both.  True when a violation was recorded.  Constructs outside the interpreter: no obligation (the symbolic
+    comparison decides alone)."""
+    from . import c04_sym as SY
+    st, rows = SY.run_world(_op4_methods(ctx), fn)
+    inst = "_is_symmetric (sparse input): on a finite world of 4x4 sparse patterns the answer is A == A.T (form 6 exactly for symmetric matrices)"
+    if st == "stop":
+        return False
+    bad = [(n, e, x, g) for n, e, x, g in rows if all(a != x for a in g.values())]
+    hard = [b for b in bad if all(isinstance(a, bool) for a in b[3].values())]
+    half = [(n, e, x, g) for n, e, x, g in rows if any(a != x for a in g.values()) and (n, e, x, g) not in hard]
+    if hard:
+        n, e, x, g = hard[0]
+        dense = [[e.get((i, j), 0) for j in range(4)] for i in range(4)]
+        ctx.fail(inst, fn, {"pattern": n, "matrix": dense, "symmetric": x, "answer of _is_symmetric": g["column-major"],
+                            "consequence": "form 6 written for an unsymmetric matrix (or form 1 for a symmetric one): the form read back differs from "
+                                           "the form of the matrix that was written",
+                            "other patterns answered wrongly": [b[0] for b in hard[1:]][:6]},
+                 key="C04-R8|_is_symmetric|finite world of sparse patterns")
+        return True
+    if half:
+        n, e, x, g = half[0]
+        ctx.error(inst, fn, {"pattern": n, "symmetric": x, "answers by entry order": {k: (a if isinstance(a, bool) else list(a)) for k, a in g.items()}})
+        return False
+    ctx.ok(inst, fn, f"{len(rows)} patterns, two entry orders")
+    return False
+
+
 def r8_symmetry_test(ctx):
     """_is_symmetric decides form 6 when no form is given.  (1) Sparse arm on (r, c, v) triplets: every lower-triangle entry (r, c, v) is paired with
     the upper-triangle entry (c, r, v'), so the test must be invariant under transposition: swapping the roles of the row and column vectors
@@ -1273,6 +1303,8 @@ def r8_symmetry_test(ctx):
     over the whole matrix) and the same tolerances.  All decided on values (names and spelling irrelevant)."""
     fn, runs = _is_symmetric_runs(ctx)
     ctx.scope(runs["sparse"][3], runs["dense"][3])
+    if _symmetry_world(ctx, fn):
+        return          # a wrong answer on a concrete pattern has been reported: the symbolic comparison below has nothing to add
     # every way out of an arm: the final return and the early returns under tests the evaluation could not decide
     tests, consts = {}, {}
     for arm in ("sparse", "dense"):
